@@ -160,6 +160,7 @@ def check_property(pid, tier, seed):
     known_for = [f for f in open_f if f.get("property") == pid]
     stats = PR.evaluate(pid, results, known_for)
     import streams as S
+    shrink_until = time.time() + (40 if tier == "quick" else 400)     # wall-clock budget of all shrinking together
     for kind, r, detail in stats["failures"][:4]:
         concrete = kind == "monitor"
         events = r.get("events")
@@ -169,17 +170,18 @@ def check_property(pid, tier, seed):
         if is_meta:
             # a two-run (metamorphic) failure: the detail carries both event lists; `./check replay` re-runs the pair
             payload["kind"] = "monitor-two-run"
-            if tier != "noshrink":
+            if tier != "noshrink" and time.time() < shrink_until:
                 try:
                     import metamorphic
                     payload["detail"] = metamorphic.shrink_pair(detail, budget=40 if tier == "quick" else 120)
                     payload["events"] = metamorphic.untag(payload["detail"].get("base_events") or events or [])
                 except Exception:
                     payload["shrink_error"] = traceback.format_exc()
-        if concrete and events and r.get("cfg") is not None and tier != "noshrink" and not is_meta:
+        if concrete and events and r.get("cfg") is not None and tier != "noshrink" and not is_meta \
+                and time.time() < shrink_until:
             try:
                 small = S.shrink(r["cfg"], events, lambda rr: pid in rr["mon"], seed=r.get("seed") or 0,
-                                 budget=60 if tier == "quick" else 200)
+                                 budget=60 if tier == "quick" else 200, deadline=shrink_until)
                 rr = S.replay(r["cfg"], small, r.get("seed") or 0)
                 if pid in rr["mon"]:
                     payload["events"] = rr["events"]
